@@ -1,6 +1,7 @@
 package gw
 
 import (
+	"sort"
 	"strconv"
 	"strings"
 
@@ -47,6 +48,29 @@ var eventShapes = map[string][2]string{
 	"query-nosubject":    {"query", `{"subject":""}`},
 	"query-badjson":      {"query", `{"subject":`},
 	"query-numsubject":   {"query", `{"subject":12}`},
+}
+
+// connShapes: malformed conn.<cid>.token events, delivered to every live
+// connection; sysShapes: malformed system events. shape -> (event, payload).
+var connShapes = map[string][2]string{
+	"tok-empty":     {"token", ``},
+	"tok-badjson":   {"token", `{"token":`},
+	"tok-array":     {"token", `[1]`},
+	"tok-string":    {"token", `"x"`},
+	"tok-tidnum":    {"token", `{"token":{"u":1},"tid":12}`},
+	"tok-unknownev": {"frobnicate", `{}`},
+}
+
+var sysShapes = map[string][2]string{
+	"sys-reset-empty":      {"reset", ``},
+	"sys-reset-badjson":    {"reset", `{"resources":`},
+	"sys-reset-string":     {"reset", `{"resources":"a"}`},
+	"sys-reset-nums":       {"reset", `{"resources":[1,2],"access":[3]}`},
+	"sys-treset-empty":     {"tokenReset", ``},
+	"sys-treset-badjson":   {"tokenReset", `{"tids":`},
+	"sys-treset-string":    {"tokenReset", `{"tids":"tid1","subject":"auth.tokenreset"}`},
+	"sys-treset-nosubject": {"tokenReset", `{"tids":["tid1"]}`},
+	"sys-unknown":          {"frobnicate", `{}`},
 }
 
 // replyShapes: shape -> raw response payload.
@@ -143,6 +167,15 @@ func (s *Sim) withLen(raw, k string, sent bool) (string, bool) {
 	return strings.ReplaceAll(raw, "$LEN", strconv.Itoa(n)), true
 }
 
+func sortedKeys(m map[string]string) []string {
+	ks := make([]string, 0, len(m))
+	for k := range m {
+		ks = append(ks, k)
+	}
+	sort.Strings(ks)
+	return ks
+}
+
 func malformedFor(shape, typ string) bool {
 	m := replyMalformed[shape]
 	if m == "*" {
@@ -159,11 +192,40 @@ func malformedFor(shape, typ string) bool {
 // inject delivers a malformed event of the given shape on the resource, if
 // the gateway is subscribed to it.
 func (s *Sim) inject(sname, shape string) bool {
+	w := s.w
+	if sh, ok := sysShapes[shape]; ok {
+		if !w.mq.hasSub("system") {
+			return false
+		}
+		rec := w.mevtRec("system", sh[0])
+		rec["bad"], rec["shape"] = true, shape
+		w.add(rec)
+		return w.mq.deliver("system", sh[0], []byte(sh[1]))
+	}
+	if sh, ok := connShapes[shape]; ok {
+		w.mu.Lock()
+		cids := map[string]string{}
+		for sym, cid := range w.symCID {
+			cids[sym] = cid
+		}
+		w.mu.Unlock()
+		done := false
+		for _, sym := range sortedKeys(cids) {
+			if !w.mq.hasSub("conn." + cids[sym]) {
+				continue
+			}
+			rec := w.mevtRec("conn", sh[0])
+			rec["c"], rec["bad"], rec["shape"] = sym, true, shape
+			w.add(rec)
+			w.mq.deliver("conn."+cids[sym], sh[0], []byte(sh[1]))
+			done = true
+		}
+		return done
+	}
 	sh, ok := eventShapes[shape]
 	if !ok {
 		return false
 	}
-	w := s.w
 	w.mu.Lock()
 	real := sname
 	for sym, cid := range w.symCID {
